@@ -545,7 +545,7 @@ func checkC10(w *World) {
 				if !ok {
 					return true
 				}
-				if bo.Op == token.SUB && !(isLenOf(bo.X, nil) && isLenOf(bo.Y, nil)) {
+				if bo.Op == token.SUB && !(isLenOf(bo.X, nil) && isLenOf(bo.Y, nil)) && !lenGrowthDifference(bo) {
 					bad = "a subtraction at " + w.pos(bo.Pos())
 				}
 				if k, isK := constInt(bo.Y); bo.Op == token.ADD && isK && k < 0 {
@@ -1294,4 +1294,42 @@ func returnsConstructed(fn *ssa.Function, sf *storeFacts, depth int) bool {
 		}
 	})
 	return ok && n > 0
+}
+
+// lenGrowthDifference: a + len(s) - len0 where len0 is an earlier len of the same list (the number of elements added
+// since): never negative for a list that only grows.
+func lenGrowthDifference(bo *ssa.BinOp) bool {
+	y, ok := bo.Y.(*ssa.Call)
+	if !ok || !isLenOf(y, nil) {
+		return false
+	}
+	same := func(a, b ssa.Value) bool {
+		if a == b {
+			return true
+		}
+		la, ok1 := a.(*ssa.UnOp)
+		lb, ok2 := b.(*ssa.UnOp)
+		if !ok1 || !ok2 {
+			return false
+		}
+		fa, ok1 := la.X.(*ssa.FieldAddr)
+		fb, ok2 := lb.X.(*ssa.FieldAddr)
+		return ok1 && ok2 && fa.Field == fb.Field && fa.X == fb.X
+	}
+	found := false
+	var addends func(v ssa.Value, depth int)
+	addends = func(v ssa.Value, depth int) {
+		if depth > 4 {
+			return
+		}
+		if c, ok := v.(*ssa.Call); ok && isLenOf(c, nil) && same(c.Call.Args[0], y.Call.Args[0]) {
+			found = true
+		}
+		if b, ok := v.(*ssa.BinOp); ok && b.Op == token.ADD {
+			addends(b.X, depth+1)
+			addends(b.Y, depth+1)
+		}
+	}
+	addends(bo.X, 0)
+	return found
 }
